@@ -12,6 +12,23 @@ Ltac Zify.zify_post_hook ::= Z.div_mod_to_equations.
 Lemma bom_bytes e : bytes (bom e).
 Proof. destruct e; repeat constructor. Qed.
 
+Lemma units_bytes_W8' en w l : w = W8 -> units_bytes en w l = l.
+Proof. intros ->. apply units_bytes_W8. Qed.
+
+(* the switch of ReadChunk *)
+Lemma read_chunk_dispatch {A} (e : utftype) (tgt : width) (raw : A) (dec : utftype -> A) :
+  match e with
+  | Utf8 => match tgt with W8 => raw | _ => dec Utf8 end
+  | Utf16le => dec Utf16le | Utf16be => dec Utf16be | Utf32le => dec Utf32le | Utf32be => dec Utf32be
+  end = if utftype_eqb e Utf8 && width_eqb tgt W8 then raw else dec e.
+Proof. destruct e, tgt; reflexivity. Qed.
+
+Lemma utftype_eqb_eq a b : utftype_eqb a b = true <-> a = b.
+Proof. destruct a, b; cbn; split; congruence. Qed.
+
+Lemma width_eqb_eq a b : width_eqb a b = true <-> a = b.
+Proof. destruct a, b; cbn; split; congruence. Qed.
+
 Section LOSSLESS.
   Variable K : nat.
   Hypothesis HK4 : K mod 4 = 0.
@@ -129,29 +146,30 @@ Section LOSSLESS.
       - rewrite <- RR. unfold remaining. rewrite Hw', skipn_length, WL1. unfold unread. rewrite Is'. lia. }
     rewrite Ety1.
     assert (Hraw : e = Utf8 -> tgt = W8 ->
-              exists s' out', Ok (ChSuccess, mkE (e_is s1) (e_buf s1) 0 0 (e_type s1),
-                                  out ++ slice (e_buf s1) (e_start s1) (e_end s1 - e_start s1)) = Ok (ChSuccess, s', out') /\
+              exists s' out', Ok (ChSuccess, mkE (e_is s1) (e_buf s1) 0 0 e, out ++ slice (e_buf s1) 0 n)
+                              = Ok (ChSuccess, s', out') /\
                 LInv s' out' /\ rem s' < rem s).
     { intros E8 T8. eexists _, _. split; [reflexivity|].
-      fold n. rewrite St1, Nat.sub_0_r. change (slice (e_buf s1) 0 n) with (slice (e_buf s1) (0) (n - 0 + 0 - 0)).
+      assert (Ewin0 : slice (e_buf s1) 0 n = winE s1).
+      { unfold win. fold n. rewrite St1, Nat.sub_0_r. reflexivity. }
+      rewrite Ewin0.
       assert (Hw8 : w = W8) by (unfold w; rewrite E8; reflexivity).
       assert (Hu8 : u = 1) by (unfold u; rewrite Hw8; reflexivity).
-      assert (Ew : slice (e_buf s1) 0 (n - 0 + 0 - 0) = winE s1).
-      { unfold win. fold n. rewrite St1. f_equal. lia. }
-      rewrite Ew.
       apply (Fin _ _ n n).
       - destruct I1. constructor; cbn [e_is e_buf e_start e_end e_type]; try assumption; lia.
-      - exact Ety1.
+      - reflexivity.
       - reflexivity.
       - rewrite Hu8. lia.
       - lia.
       - lia.
       - unfold win at 1. cbn [e_buf e_start e_end]. cbn. rewrite <- WL1. symmetry. apply skipn_all.
       - (* 8 -> 8: consumed = copied *)
-        unfold Consumed in *. rewrite Hw8, T8 in *. cbn [width_eqb] in *. destruct HC as [_ ->].
-        fold U. split.
+        unfold Consumed in HC |- *.
+        replace (width_eqb w tgt) with true in HC |- * by (rewrite Hw8, T8; reflexivity).
+        destruct HC as [_ ->]. fold U. split.
         + rewrite rest_bytes_length, Hu8 in Hnle. lia.
-        + rewrite Ewin. unfold rest_bytes. rewrite Hw8, units_bytes_W8. rewrite firstn_add_split. reflexivity. }
+        + rewrite Ewin. unfold rest_bytes. rewrite (units_bytes_W8' en w _ Hw8).
+          rewrite firstn_add_split. reflexivity. }
     assert (Hdec : (e = Utf8 -> tgt <> W8) ->
               exists s' out', esr_decode_chunk tgt pol mark e s1 out = Ok (ChSuccess, s', out') /\
                 LInv s' out' /\ rem s' < rem s).
@@ -200,8 +218,7 @@ Section LOSSLESS.
           replace (negb (e_start s' =? e_end s')) with false
             by (subst s'; cbn [e_start e_end]; symmetry; apply negb_false_iff, Nat.eqb_eq; exact Hpn).
           eexists _, _. split; [reflexivity|].
-          apply (Fin _ _ p (r_pos r)); try assumption; try reflexivity; try lia.
-          rewrite Hpn, Hn. rewrite rest_bytes_length in Hrem. nia.
+          apply (Fin _ _ p (r_pos r)); try assumption; try reflexivity; try lia; try nia.
         + exfalso. destruct (D5 D1) as [_ [_ D6]]. lia.
       - (* more to come: a character cut by the end of the window stays for the next chunk *)
         assert (Hfull : n = K) by (rewrite <- WL1; apply G4; reflexivity).
@@ -215,14 +232,82 @@ Section LOSSLESS.
         { eexists _, _. split; [reflexivity|].
           apply (Fin _ _ p (r_pos r)); try assumption; try reflexivity; try lia. }
         destruct Hc as [-> | ->]; exact Hgoal. }
-    destruct e eqn:Ee.
-    - destruct tgt eqn:Et.
-      + apply Hraw; reflexivity.
-      + apply Hdec. intros _. discriminate.
-      + apply Hdec. intros _. discriminate.
-    - apply Hdec. intros H; discriminate.
-    - apply Hdec. intros H; discriminate.
-    - apply Hdec. intros H; discriminate.
-    - apply Hdec. intros H; discriminate.
+    match goal with |- exists s' out', ?X = _ /\ _ =>
+      replace X with (if utftype_eqb e Utf8 && width_eqb tgt W8
+                      then Ok (ChSuccess, mkE (e_is s1) (e_buf s1) 0 0 e, out ++ slice (e_buf s1) 0 n)
+                      else esr_decode_chunk tgt pol mark e s1 out)
+        by (symmetry; apply (read_chunk_dispatch e tgt _ (fun e' => esr_decode_chunk tgt pol mark e' s1 out)))
+    end.
+    destruct (utftype_eqb e Utf8 && width_eqb tgt W8) eqn:Ed.
+    - apply andb_true_iff in Ed. destruct Ed as [Ed1 Ed2].
+      apply utftype_eqb_eq in Ed1. apply width_eqb_eq in Ed2. apply Hraw; assumption.
+    - apply Hdec. intros E8 T8. rewrite E8, T8 in Ed. discriminate.
+  Qed.
+
+  (* ---------- the whole run ---------- *)
+
+  Lemma loop_lossless : forall fuel s out acc, LInv s out -> rem s < fuel ->
+    exists k, esr_loop K tgt pol mark fuel s out acc =
+                RunDone (acc ++ repeat ChSuccess k ++ [ChEndFile]) (encs tgt text) e.
+  Proof.
+    induction fuel as [|fuel IH]; intros s out acc L Hf; [lia|].
+    cbn [esr_loop]. destruct (read_chunk_lossless s out L) as [H0 H1].
+    destruct (Nat.eq_dec (rem s) 0) as [Hz|Hnz].
+    - destruct (H0 Hz) as [s' [E Ety]]. rewrite E. exists 0. cbn [repeat app]. rewrite Ety. f_equal.
+      (* nothing remains: every unit has been consumed *)
+      destruct L as [_ [_ [m [Hm [HC HB]]]]].
+      assert (Hl : length (rest_bytes m) = 0).
+      { rewrite <- HB, app_length. unfold remaining in Hz. exact Hz. }
+      rewrite rest_bytes_length in Hl. pose proof Hu1.
+      assert (m = length U) by nia. subst m.
+      apply (consumed_end w tgt text out Hs HC).
+    - destruct (H1 ltac:(lia)) as [s' [out' [E [L' Hlt]]]]. rewrite E.
+      destruct (IH s' out' (acc ++ [ChSuccess]) L' ltac:(lia)) as [k Ek].
+      exists (S k). rewrite Ek. rewrite <- app_assoc. reflexivity.
+  Qed.
+
+  Definition stream_defect : bool :=
+    if b then bom_defect e text
+    else match text with c :: rest => nobom_defect e rest | [] => false end.
+
+  Hypothesis Hdet : detectable b text.
+  Hypothesis Hnd : stream_defect = false.
+
+  Lemma text_bytes_length : length (text_bytes e text) = u * length U.
+  Proof. unfold text_bytes. apply units_bytes_length. Qed.
+
+  Lemma data_detect : data <> [] /\
+    detect (firstn K data) = Ok (e, length (if b then bom e else [])) .
+  Proof.
+    unfold data, with_bom, stream_defect in *. destruct b.
+    - split; [destruct e; discriminate|].
+      assert (Hbl : length (bom e) <= K) by (destruct e; cbn; lia).
+      rewrite firstn_app, (firstn_all2 (bom e)) by exact Hbl.
+      apply detect_bom_bytes. intros E16. apply starts_00_firstn.
+      rewrite starts_00_text16 by (try exact Hs; rewrite E16; reflexivity).
+      rewrite E16 in Hnd. unfold bom_defect in Hnd. exact Hnd.
+    - destruct Hdet as [Hb|[c [rest [Et Hc]]]]; [discriminate|]. cbn [app length].
+      assert (Hs' : Forall scalar rest) by (rewrite Et in Hs; inversion Hs; assumption).
+      split.
+      + intros H. apply (f_equal (@length N)) in H. rewrite text_bytes_length in H. cbn [length] in H.
+        pose proof Hu1. unfold U in H. rewrite Et in H.
+        change (encs w (c :: rest)) with (enc w c ++ encs w rest) in H. rewrite app_length in H.
+        pose proof (enc_len_pos w c). nia.
+      + revert Hnd. rewrite Et. intros Hnd'. apply detect_nobom_prefix; try assumption; lia.
+  Qed.
+
+  Theorem esr_lossless sk fuel : length data < fuel ->
+    exists k, esr_run K tgt pol mark fuel (stream_of data sk) =
+                RunDone (repeat ChSuccess k ++ [ChEndFile]) (encs tgt text) e.
+  Proof.
+    intros Hf. unfold esr_run.
+    destruct (new_spec K HK4 HK32 data Hdata sk) as [s0 [E [I0 [Hr [_ Hne]]]]]. rewrite E.
+    destruct data_detect as [Hd Hdt].
+    destruct (Hne Hd) as [e' [off [Ed [Ety Hw]]]].
+    rewrite Hdt in Ed. injection Ed as <- <-.
+    assert (L0 : LInv s0 []).
+    { split; [exact I0|]. split; [exact Ety|]. exists 0. split; [lia|]. split; [apply consumed_start|].
+      rewrite Hw. unfold rest_bytes. cbn [skipn]. unfold data, with_bom. rewrite skipn_app_exact. reflexivity. }
+    destruct (loop_lossless fuel s0 [] [] L0 ltac:(lia)) as [k Ek]. exists k. exact Ek.
   Qed.
 End LOSSLESS.
